@@ -93,7 +93,8 @@ class ScopeLifeDriver:
         w = self.w
         if name == "Enter":
             self.entered_called = True
-            w.do("1", "ascope", 1, [("A", 2)], list(self.disps) if self.disps else None, None)
+            # the scope is ALSO given a B explicitly: what the disposables yield comes after it and wins
+            w.do("1", "ascope", 1, [("A", 2), ("B", 9)], list(self.disps) if self.disps else None, None)
         elif name == "ReleaseEnter":
             w.release(f"de:d{args[0]}", args[1])
         elif name == "ReleaseExit":
